@@ -125,6 +125,11 @@ type Interp struct {
 	permuteMode int // 0 canonical, 1 one arbitrary-order range per execution, 2 every range
 	permuteUsed bool
 	inYield    bool
+	inGo          int  // depth of synchronously executed `go` callees
+	inBlockedHook bool
+	cancelTarget  *ctxNode
+	ctxNodes      []*ctxNode
+	encoded       []Value // values passed to (*json.Encoder).Encode, in order
 	initPhase  bool
 	blobs      map[*SymStr]*blobRec
 	tsGhost    map[*Obj]TimeV
